@@ -37,6 +37,7 @@ type Event struct {
 	Flag   string   `json:"flag"`
 	DirArg bool     `json:"dirarg"`        // run from elsewhere with -dir <module>
 	Out    string   `json:"out,omitempty"` // "" absolute -out; "rel": -out relative to the working directory; "default": no -out, run in the out dir (needs DirArg)
+	Sub    string   `json:"sub,omitempty"` // run from / point -dir at this sub-directory of the module (go.mod is in a parent)
 }
 
 func (e Event) String() string {
@@ -52,6 +53,9 @@ func (e Event) String() string {
 	}
 	if e.Out != "" {
 		s = "[-out " + e.Out + "] " + s
+	}
+	if e.Sub != "" {
+		s = "[in " + e.Sub + "] " + s
 	}
 	return s
 }
@@ -102,6 +106,7 @@ type runResult struct {
 	after  State
 	stamps map[string]string // path -> "ino:mtime" after
 	before map[string]string
+	dirs   map[string]bool // directories present afterwards (relative)
 }
 
 var tmpCounter int
@@ -154,9 +159,9 @@ func invoke(prior State, e Event) runResult {
 	if e.Flag != "" {
 		args = append(args, e.Flag)
 	}
-	cwd := fixture
+	cwd := filepath.Join(fixture, e.Sub)
 	if e.DirArg {
-		args = append(args, "-dir", fixture)
+		args = append(args, "-dir", filepath.Join(fixture, e.Sub))
 		cwd = scratch
 	}
 	if e.Out == "default" {
@@ -169,7 +174,7 @@ func invoke(prior State, e Event) runResult {
 	cmd.Stderr = &errb
 	cmd.Stdout = &errb
 	err := cmd.Run()
-	r := runResult{stderr: errb.String(), after: State{}, stamps: map[string]string{}, before: before}
+	r := runResult{stderr: errb.String(), after: State{}, stamps: map[string]string{}, before: before, dirs: map[string]bool{}}
 	if err != nil {
 		if ee, ok := err.(*exec.ExitError); ok {
 			r.exit = ee.ExitCode()
@@ -179,6 +184,10 @@ func invoke(prior State, e Event) runResult {
 		}
 	}
 	filepath.Walk(out, func(p string, info os.FileInfo, err error) error {
+		if err == nil && info.IsDir() && p != out {
+			rel, _ := filepath.Rel(out, p)
+			r.dirs[rel] = true
+		}
 		if err == nil && !info.IsDir() {
 			rel, _ := filepath.Rel(out, p)
 			b, _ := os.ReadFile(p)
@@ -194,12 +203,12 @@ func invoke(prior State, e Event) runResult {
 var listCache sync.Map
 
 func goList(e Event) []string {
-	key := strings.Join(e.Pats, "\x00")
+	key := e.Sub + "\x01" + strings.Join(e.Pats, "\x00")
 	if v, ok := listCache.Load(key); ok {
 		return v.([]string)
 	}
 	cmd := exec.Command("go", append([]string{"list", "-e", "-tags", "goose", "-f", "{{.ImportPath}}"}, e.Pats...)...)
-	cmd.Dir = fixture
+	cmd.Dir = filepath.Join(fixture, e.Sub)
 	out, _ := cmd.Output()
 	var pk []string
 	for _, l := range strings.Split(strings.TrimSpace(string(out)), "\n") {
@@ -287,6 +296,27 @@ func check(prior State, e Event, r runResult) (kind, msg string) {
 	for p := range r.after {
 		if _, ok := want[p]; !ok && !unjudged[p] {
 			return "extra-file", fmt.Sprintf("unexpected file %s written", p)
+		}
+	}
+	// no directory but the ancestors of the files that are (or were) there
+	wantDirs := map[string]bool{}
+	addAnc := func(p string) {
+		for d := filepath.Dir(p); d != "." && d != "/"; d = filepath.Dir(d) {
+			wantDirs[d] = true
+		}
+	}
+	for p := range want {
+		addAnc(p)
+	}
+	for p := range prior {
+		addAnc(p)
+	}
+	for p := range unjudged {
+		addAnc(p)
+	}
+	for d := range r.dirs {
+		if !wantDirs[d] {
+			return "extra-directory", fmt.Sprintf("directory %s was created although no file belongs there", d)
 		}
 	}
 	// a file whose content did not change must not have been rewritten
@@ -390,6 +420,11 @@ func events(tier string) []Event {
 	}
 	out = append(out, Event{Pats: []string{"./good"}, Flag: "-typecheck"})
 	out = append(out, Event{Pats: []string{"./good", "./bad"}, DirArg: true}, Event{Pats: []string{"./..."}, DirArg: true, Ignore: true}, Event{Pats: []string{modPath + "/nested/inner2"}, DirArg: true})
+	// the working directory / -dir is a sub-directory of the module (go.mod in a parent)
+	for _, da := range []bool{false, true} {
+		out = append(out, Event{Pats: []string{"./inner"}, Sub: "nested", DirArg: da}, Event{Pats: []string{"./..."}, Sub: "nested", DirArg: da},
+			Event{Pats: []string{modPath + "/good", "./inner"}, Sub: "nested", DirArg: da})
+	}
 	for _, om := range []string{"rel", "default"} {
 		for _, da := range []bool{false, true} {
 			if om == "default" && !da {
@@ -557,7 +592,7 @@ func main() {
 	os.RemoveAll(scratch)
 	os.Exit(acc.Done(ev.Finish{
 		Prop: "C17", Tier: *tier, Level: "model_checking", Start: start,
-		Rule:        "explicit-state BFS (depth 2) over invocations of the real goose binary on a fixture module (good, conversion-error, load-error, nested, build-tag-split, dashed/dotted package path): 13 pattern sets (relative, recursive, import path, mixed good/bad in both orders, duplicate, non-matching) x -ignore-errors x content flags (thorough: all four) x cwd / -dir x -out absolute / relative to the working directory / defaulted, on a private copy of the fixture, from seven seed out-dir states (empty; garbage + stale file; identical + old partial file; new content + trailing text; proper prefix; same length, other last byte; doubled); state = out-dir tree (paths, content); oracle per transition: exit 0 iff every package selected by `go list -tags goose` translated, one file per translated package at the documented path with the content of its solo translation, failing packages write nothing unless -ignore-errors, no other file touched or created, unchanged content keeps inode and mtime; plus: partial output == translation of the package without the failing declaration, definitions of the build-tag package == functions of the files `go list -tags goose` selects",
+		Rule:        "explicit-state BFS (depth 2) over invocations of the real goose binary on a fixture module (good, conversion-error, load-error, nested, build-tag-split, dashed/dotted package path): 13 pattern sets (relative, recursive, import path, mixed good/bad in both orders, duplicate, non-matching) x -ignore-errors x content flags (thorough: all four) x cwd / -dir x -out absolute / relative to the working directory / defaulted x module root / a sub-directory of the module as working directory or -dir, on a private copy of the fixture, from seven seed out-dir states (empty; garbage + stale file; identical + old partial file; new content + trailing text; proper prefix; same length, other last byte; doubled); state = out-dir tree (paths, content); oracle per transition: exit 0 iff every package selected by `go list -tags goose` translated, one file per translated package at the documented path with the content of its solo translation, failing packages write nothing unless -ignore-errors, no other file touched or created, no directory created but the ancestors of those files, unchanged content keeps inode and mtime; plus: partial output == translation of the package without the failing declaration, definitions of the build-tag package == functions of the files `go list -tags goose` selects",
 		Assumptions: []string{"file content is judged against the binary's own solo translation (placement, exit status and rewrite behaviour are what this property is about)", "a package that fails to load under -ignore-errors writes a stray file; the property speaks of conversion errors only, so that file is not judged", "permission-based out-dir states are not explored (the sandbox runs as root)"},
 	}))
 }
